@@ -205,17 +205,21 @@ def divergence_class(nodes, name):
     return None
 
 
-def symver_class(nodes):
-    """Known-finding class of the `.symver sv_new, sv@@Vn` group, or None: the script's local patterns
-    match the bare name `sv` (GNU ld and lld still export sv@@Vn, wild makes it local), or one of the
-    group's names falls in a wildcard-precedence class."""
+def symver_class(nodes, symver=1):
+    """Known-finding class of the `.symver sv_new, sv@@Vlast` (+ `sv_old, sv@Vfirst`) group, or None:
+    the script's precedence makes the bare name `sv` local, but not through the local: list of the
+    node the symbol is explicitly bound to (GNU ld and lld consult only that node and still export
+    sv@@Vn; wild applies the script-wide verdict and makes it local); or one of the group's names
+    falls in a wildcard-precedence class."""
     for n in ("sv", "sv_new", "sv_old"):
         c = divergence_class(nodes, n)
         if c is not None:
             return c
     r = rule_gnu(nodes, "sv")
     if r is not None and r[0] == "local":
-        return KNOWN_SYMVER
+        used = [nodes[-1]] + ([nodes[0]] if symver == 2 and len(nodes) > 1 else [])
+        if not all(any(matches(p, "sv") for p in n["local"]) for n in used):
+            return KNOWN_SYMVER
     return None
 
 
@@ -299,7 +303,7 @@ class C32(Check):
             if c is not None:
                 return c
         if case["symver"] and not case["anon"]:
-            return symver_class(nodes)
+            return symver_class(nodes, case["symver"])
         return None
 
     def run_case(self, case, ctx):
@@ -313,7 +317,7 @@ class C32(Check):
         for s in syms:
             src += [f".globl {s}", f".type {s},@function", f"{s}:", "  ret", f".size {s}, 1"]
         symver = 0 if anon else case["symver"]
-        if symver and not case["raw"] and symver_class(nodes) is not None:
+        if symver and not case["raw"] and symver_class(nodes, symver) is not None:
             symver = 0
         sv_names = []
         if symver:
@@ -392,7 +396,7 @@ class C32(Check):
         # ---- wild vs GNU ld: per symbol ---------------------------------------------------------
         for s in sorted(names):
             if dl.get(s) != dw.get(s):
-                cls = divergence_class(nodes, s) if s in syms else symver_class(nodes)
+                cls = divergence_class(nodes, s) if s in syms else symver_class(nodes, symver)
                 sig = cls or ("version-mismatch:" + ("symver" if s in sv_names else self._kind(dl.get(s), dw.get(s))))
                 raise Violation(sig, f"{s}: GNU ld (and the precedence model) give {dl.get(s)}, wild gives {dw.get(s)}; "
                                 f"match structure {self._structure(nodes, s) if s in syms else 'symver'}", {"script": script})
